@@ -442,12 +442,39 @@ def conformance(depth, cap):
     return checked, mismatches
 
 
+def callsite_part():
+    """The arbiter's own use of the pid file (start / reload / promotion / halt), on the same simulated FS:
+    histories of the real Arbiter.run() from the C10 and C14 explorations, judged here for the pid-file facts only."""
+    from props import c10, c14
+    viols = {}
+    n = 0
+    c14.patch_reexec_marker()
+    for params in ({"workers": 2, "hup_workers": 2, "term": "now", "bind": "tcp", "timeout": 30},
+                   {"workers": 2, "hup_workers": 3, "term": "late", "bind": "unix", "timeout": 30}):
+        for script in c10.HUP_SCRIPTS:
+            k, o = c10.sim_execute(params, script)
+            n += 1
+            for fp, text in c10.sim_judge(params, k, o):
+                if "pidfile" in fp:
+                    viols.setdefault("callsite:reload:" + fp, violation("callsite:reload:" + fp, "history %r: %s" % (script, text), {"callsite": "reload"}))
+    for script in ([], [("parent-exit",)], [("parent-killed",)], [("parent-exit",), ("sig", "TERM")], [("sig", "TERM")], [("parent-exit",), ("sig", "USR2")]):
+        params = {"bind": "tcp", "daemon": False}
+        k, o = c14.new_execute(params, list(script))
+        n += 1
+        for fp, text in c14.new_judge(params, k, o):
+            if "pidfile" in fp:
+                viols.setdefault("callsite:promotion:" + fp, violation("callsite:promotion:" + fp, "new master, history %r: %s" % (script, text), {"callsite": "promotion"}))
+    return list(viols.values()), n
+
+
 def run(ctx):
     depth = 6 if ctx.thorough else 5
     st = explore(depth)
     cdepth, cap = (4, 1500) if ctx.thorough else (3, 400)
     checked, mism = conformance(cdepth, cap)
     viols = list(st["viols"])
+    cviols, ncalls = callsite_part()
+    viols += cviols
     if mism:
         # a disagreement between simulated and real file system is a harness problem, not a verdict
         raise AssertionError("simfs conformance failed: %r" % mism[:2])
@@ -455,7 +482,7 @@ def run(ctx):
         "states": st["states"], "transitions": st["transitions"],
         "traces_validated_against_impl": checked,
         "samples": st["samples"] or [[["spawn", "A"], ["create", "A", P]]],
-        "crash_points_injected": st["crash_points"],
+        "crash_points_injected": st["crash_points"], "arbiter_callsite_histories": ncalls,
         "max_depth": st["max_depth"], "depth_bound": depth,
         "exhaustive": True,
         "evaluations": st["transitions"] + st["crash_points"], "distinct_nontrivial": st["states"],
@@ -474,6 +501,9 @@ def run(ctx):
 
 
 def replay(case):
+    if "callsite" in case:
+        v, _ = callsite_part()
+        return v[0] if v else None
     mod = fresh_pidfile_module()
     hist = _deser(case["history"])
     w, bad = replay_history(mod, hist, crash_at=case.get("crash_at"))
